@@ -66,7 +66,10 @@ def mk(req, inm=None):
 def inm_values(etag):
     strong = etag[2:] if etag.startswith('W/') else etag
     return [etag, strong, '"x", ' + etag, strong + ', "y"', '*', '* , "x"', '"stale"', 'W/"stale"', 'stale', etag[:-1], etag.strip('"'),
-            '"x", *', etag.lower().replace('w/', 'W/'), etag.upper(), ' ' + etag + ' ', etag + etag, 'W/' + etag, '', '"' + strong + '"']
+            '"x", *', etag.lower().replace('w/', 'W/'), etag.upper(), ' ' + etag + ' ', etag + etag, 'W/' + etag, '', '"' + strong + '"',
+            # malformed values with a bare asterisk: the header is read as a sequence of tokens (asterisk or quoted tag, anything else skipped),
+            # and it is "the wildcard" when the first token is the asterisk - an asterisk inside a quoted tag is not one
+            'stale*value', 'W/*', '**', '"a*b"', '"x"*', '"x" *']
 
 
 def matcher_says(etag, inm):
